@@ -19,6 +19,8 @@ import (
 	"go.dedis.ch/kyber/v4/sign/cosi"
 	"go.dedis.ch/kyber/v4/sign/eddsa"
 	"go.dedis.ch/kyber/v4/sign/schnorr"
+	"go.dedis.ch/kyber/v4/shuffle"
+	"go.dedis.ch/kyber/v4/util/encoding"
 	"verif/harness/alpha"
 	"verif/harness/groups"
 	"verif/harness/vf"
@@ -389,6 +391,131 @@ func composites() []func(*vf.Check) {
 			return err
 		}, true}
 	})
+	// encrypted VSS deals: each byte field of an honest EncryptedDeal replaced by hostile bytes, handed to a fresh Verifier
+	{
+		var privs []kyber.Scalar
+		var pubs []kyber.Point
+		for i := 0; i < 4; i++ {
+			k := ed.Scalar().Pick(alpha.Stream(fmt.Sprintf("c04-vss-%d", i)))
+			privs, pubs = append(privs, k), append(pubs, ed.Point().Mul(k, nil))
+		}
+		dLong := ed.Scalar().Pick(alpha.Stream("c04-vss-dealer"))
+		dPub := ed.Point().Mul(dLong, nil)
+		for _, field := range []string{"DHKey", "Signature", "Cipher"} {
+			field := field
+			add("vss.pedersen.ProcessEncryptedDeal/"+field, func() entry {
+				dl, err := vssp.NewDealer(ed, dLong, ed.Scalar().Pick(alpha.Stream("c04-vss-secret")), pubs, 3)
+				if err != nil {
+					panic(err)
+				}
+				e, err := dl.EncryptedDeal(1)
+				if err != nil {
+					panic(err)
+				}
+				honest := map[string][]byte{"DHKey": e.DHKey, "Signature": e.Signature, "Cipher": e.Cipher}[field]
+				return entry{"", append([]byte{}, honest...), func(in []byte) error {
+					v, err := vssp.NewVerifier(ed, privs[1], dPub, pubs)
+					if err != nil {
+						return err
+					}
+					m := &vssp.EncryptedDeal{DHKey: append([]byte{}, e.DHKey...), Signature: append([]byte{}, e.Signature...), Cipher: append([]byte{}, e.Cipher...)}
+					switch field {
+					case "DHKey":
+						m.DHKey = in
+					case "Signature":
+						m.Signature = in
+					case "Cipher":
+						m.Cipher = in
+					}
+					_, err = v.ProcessEncryptedDeal(m)
+					return err
+				}, true}
+			})
+			if field == "DHKey" {
+				continue // a kyber.Point in the Rabin variant
+			}
+			add("vss.rabin.ProcessEncryptedDeal/"+field, func() entry {
+				dl, err := vssr.NewDealer(ed, dLong, ed.Scalar().Pick(alpha.Stream("c04-vss-secret")), pubs, 3)
+				if err != nil {
+					panic(err)
+				}
+				e, err := dl.EncryptedDeal(1)
+				if err != nil {
+					panic(err)
+				}
+				honest := map[string][]byte{"Signature": e.Signature, "Cipher": e.Cipher}[field]
+				return entry{"", append([]byte{}, honest...), func(in []byte) error {
+					v, err := vssr.NewVerifier(ed, privs[1], dPub, pubs)
+					if err != nil {
+						return err
+					}
+					m := &vssr.EncryptedDeal{DHKey: e.DHKey.Clone(), Signature: append([]byte{}, e.Signature...), Cipher: append([]byte{}, e.Cipher...)}
+					if field == "Signature" {
+						m.Signature = in
+					} else {
+						m.Cipher = in
+					}
+					_, err = v.ProcessEncryptedDeal(m)
+					return err
+				}, true}
+			})
+		}
+	}
+	// shuffle proofs
+	add("shuffle.Verifier/pair k=3", func() entry {
+		k := 3
+		G, H := ed.Point().Base(), ed.Point().Mul(ed.Scalar().Pick(alpha.Stream("c04-shuffle-h")), nil)
+		var X, Y []kyber.Point
+		for i := 0; i < k; i++ {
+			X = append(X, ed.Point().Mul(ed.Scalar().Pick(alpha.Stream(fmt.Sprintf("c04-shuffle-x%d", i))), nil))
+			Y = append(Y, ed.Point().Mul(ed.Scalar().Pick(alpha.Stream(fmt.Sprintf("c04-shuffle-y%d", i))), nil))
+		}
+		Xb, Yb, prover := shuffle.Shuffle(ed, G, H, X, Y, alpha.Stream("c04-shuffle"))
+		prf, err := proof.HashProve(ed, "c04-shuffle", prover)
+		if err != nil {
+			panic(err)
+		}
+		return entry{"", prf, func(in []byte) error {
+			return proof.HashVerify(ed, "c04-shuffle", shuffle.Verifier(ed, G, H, X, Y, Xb, Yb), in)
+		}, true}
+	})
+	add("shuffle.BiffleVerifier", func() entry {
+		G, H := ed.Point().Base(), ed.Point().Mul(ed.Scalar().Pick(alpha.Stream("c04-shuffle-h")), nil)
+		var X, Y [2]kyber.Point
+		for i := 0; i < 2; i++ {
+			X[i] = ed.Point().Mul(ed.Scalar().Pick(alpha.Stream(fmt.Sprintf("c04-biffle-x%d", i))), nil)
+			Y[i] = ed.Point().Mul(ed.Scalar().Pick(alpha.Stream(fmt.Sprintf("c04-biffle-y%d", i))), nil)
+		}
+		Xb, Yb, prover := shuffle.Biffle(ed, G, H, X, Y, alpha.Stream("c04-biffle"))
+		prf, err := proof.HashProve(ed, "c04-biffle", prover)
+		if err != nil {
+			panic(err)
+		}
+		return entry{"", prf, func(in []byte) error {
+			return proof.HashVerify(ed, "c04-biffle", shuffle.BiffleVerifier(ed, G, H, X, Y, Xb, Yb), in)
+		}, true}
+	})
+	// hexadecimal helpers
+	for _, gs := range []struct {
+		name string
+		g    kyber.Group
+	}{{"ed25519", ed}, {"p256", pp}} {
+		gs := gs
+		add("encoding.StringHexToPoint/"+gs.name, func() entry {
+			h, err := encoding.PointToStringHex(gs.g, gs.g.Point().Mul(gs.g.Scalar().SetInt64(7), nil))
+			if err != nil {
+				panic(err)
+			}
+			return entry{"", []byte(h), func(in []byte) error { _, err := encoding.StringHexToPoint(gs.g, string(in)); return err }, true}
+		})
+		add("encoding.ReadHexScalar/"+gs.name, func() entry {
+			h, err := encoding.ScalarToStringHex(gs.g, gs.g.Scalar().SetInt64(-7))
+			if err != nil {
+				panic(err)
+			}
+			return entry{"", []byte(h), func(in []byte) error { _, err := encoding.ReadHexScalar(gs.g, bytes.NewReader(in)); return err }, true}
+		})
+	}
 	_ = pairing.Suite(nil)
 	return out
 }
